@@ -613,6 +613,8 @@ def _stream_scan(prog: Program, f, eager_params: Dict[str, Set[str]]):
                 hits.append((n, "itertools.product exhausts every stream before its first tuple"))
             if any(isinstance(a, ast.Starred) and is_stream(a.value) for a in n.args):
                 hits.append((n, "a stream is star-unpacked"))
+            if isinstance(n.func, ast.Attribute) and n.func.attr in ("update", "extend", "join", "fromkeys", "difference_update", "intersection_update", "union", "issubset", "issuperset") and any(is_stream(a) for a in n.args):
+                hits.append((n, f".{n.func.attr}() drains a result stream / domain"))
             # callee that materialises the parameter we hand a stream / holder of streams to
             if mod is not None and isinstance(n.func, ast.Name):
                 q = mod.resolve(n.func)
